@@ -1,8 +1,11 @@
 """C10 - a bad record is reported with its own record number and raw bytes."""
 import contextlib
+import copy
 import datetime
+import decimal
 import io
 import itertools
+import json
 import os
 import re
 import shutil
@@ -23,7 +26,7 @@ RULE = ('case = (n records, position k of the faulty record, fault kind, format,
         'k on). The extraction tool run on the same file must print "Error detected in record k". Distinct by construction.')
 ASSUMPTIONS = ['vmon/ref/codec.py, vmon/ref/blocking.py build the files and the expected dicts', 'tool run in-process with out_encoding utf8']
 KINDS = ('truncated_record', 'oversized_length', 'undecodable_mti', 'unknown_bitmap_bit', 'bad_field_length', 'bad_typed_value',
-         'bad_pds_content', 'bad_icc_content', 'trailing_bytes')
+         'bad_pds_content', 'bad_icc_content', 'trailing_bytes', 'bad_decimal_value')
 FRAMING = ('truncated_record', 'oversized_length')
 # how the caller walks the reader: the statement is about iteration, however it is spelled
 CONSUME = ('for', 'for', 'next_only', 'list', 'next_then_for', 'next2_then_list', 'islice_then_for', 'iter_twice')
@@ -77,6 +80,9 @@ def faulty_wire(kind, wire, enc):
     if kind == 'bad_typed_value':
         off = hdr + 2 + 16 + 6          # DE4 starts after DE2 (LL+16) and DE3 (6)
         return wire[:off] + 'ABCDEFGHIJKL'.encode(enc) + wire[off + 12:]
+    if kind == 'bad_decimal_value':
+        off = hdr + 2 + 16 + 6 + 12     # DE9 (decimal under the caller's configuration) follows DE4
+        return wire[:off] + 'ABCD.EFG'.encode(enc) + wire[off + 8:]
     if kind == 'bad_pds_content':
         off = hdr + 2 + 16 + 6 + 12 + 12 + 3 + 4    # DE48 body + tag -> sub-length of the first PDS entry
         return wire[:off] + 'abc'.encode(enc) + wire[off + 3:]
@@ -115,8 +121,17 @@ def judge(ctx, case):
     n, k, kind, enc = case['n'], case['k'], case['fault'], case['enc']
     blocked = case['fmt'] == '1014'
     cfg = msgwork.cfg_of('packaged')
+    custom = kind == 'bad_decimal_value'
     rng = ctx.rng_global('file', n, k, kind, enc)
-    wires = [ref.encode(good_message(rng, enc, i), cfg, enc) for i in range(n)]
+    if custom:
+        # a caller-supplied configuration with a decimal element (the packaged one has none): same rules
+        cfg = copy.deepcopy(cfg)
+        cfg['9'] = dict(cfg['9'], field_python_type='decimal')
+        msgs = [dict(good_message(rng, enc, i), DE9=decimal.Decimal('%d.%03d' % (i % 97, i * 7 % 1000))) for i in range(n)]
+        wires = [ref.encode(x, cfg, enc) for x in msgs]
+        ctx.count('files read under a caller-supplied configuration')
+    else:
+        wires = [ref.encode(good_message(rng, enc, i), cfg, enc) for i in range(n)]
     expect = [ref.decode_strict(w, cfg, enc) for w in wires[:k - 1]]
     ctx.case_done(nontrivial=True, enumerated=True)
     ctx.seen('fault kinds', kind)
@@ -178,7 +193,7 @@ def judge(ctx, case):
     ctx.seen('consumption styles', consume)
 
     def body():
-        r = m.IpmReader(io.BytesIO(data), encoding=enc, blocked=blocked)
+        r = m.IpmReader(io.BytesIO(data), encoding=enc, blocked=blocked, **({'iso_config': cfg} if custom else {}))
         rdr.append(r)
         if consume == 'next_only':
             while True:
@@ -270,11 +285,17 @@ def judge(ctx, case):
     with open(path, 'wb') as f:
         f.write(data)
     sink = io.StringIO()
+    config_file = None
+    if custom:
+        from cardutil.config import config as packaged
+        config_file = os.path.join(ctx.tmpdir, 'cardutil.json')
+        with open(config_file, 'w') as f:
+            json.dump(dict(packaged, bit_config=cfg), f)
 
     def tool():
         with contextlib.redirect_stdout(sink):
             return ctx.tool.cli_run(in_filename=path, out_filename=os.path.join(ctx.tmpdir, 'o.csv'), in_encoding=enc,
-                                    out_encoding='utf8', no1014blocking=not blocked, config_file=None, debug=False)
+                                    out_encoding='utf8', no1014blocking=not blocked, config_file=config_file, debug=False)
     k3, rv = ctx.call(tool, budget=sentinel.budget_for(len(data)) * 3 + 400000)
     ctx.count('tool runs')
     text = sink.getvalue()
